@@ -7,6 +7,10 @@
 //!   NET <packet> [; <packet>]*            the broker writes these packets (read by a later POLL)
 //!   DROP                                  the broker closes the connection
 //!   POLL                                  one EventLoop::poll(), bounded by 1 ms of virtual time
+//!   POLLT <ms>                            one EventLoop::poll(), bounded by <ms> of virtual time; broker writes
+//!                                         scheduled with NETAT happen while it runs (poll() is not cancelled by them)
+//!   NETAT <delay_ms> <packet> [; ..]*     the broker will write these packets <delay_ms> from now
+//!   (LNEW takes an optional third argument: pending_throttle in ms)
 //!   FINISH                                EventLoop::clean(), then print what the client still holds
 //! Answers: OK | EVENT <event> WIRE[<packets the broker received>] | ERROR <kind> WIRE[..] | IDLE WIRE[..]
 //!          | HELD [<requests>]
@@ -327,6 +331,103 @@ ka_scenario!(
     |e: &rumqttc::v5::Event| matches!(e, rumqttc::v5::Event::Incoming(rumqttc::v5::mqttbytes::v5::Packet::ConnAck(_))), err5
 );
 
+
+// keep-alive across a reconnection (C18): connection 1 ends with a PINGREQ outstanding (the broker
+// never answers: AwaitPingResp; or it closes the connection at <ms>), the same EventLoop reconnects
+// at once to a broker that answers every PINGREQ after ka/8.
+//   KAR <ver> <ka_ms> <silent|drop@ms> <horizon_ms>
+//      -> KAR PINGS1[..] ERR1 <kind>@<t> C2@<t> PINGS2[..] END <ERROR <kind>|HORIZON>@<t>
+macro_rules! kar_scenario {
+    ($name:ident, $netty:ty, $mknet:expr, $client:ty, $evloop:ty, $newclient:expr, $opts:expr, $connack:expr,
+     $is_ping:expr, $pingresp:expr, $is_connack:expr, $err:expr) => {
+        async fn $name(ka_ms: u64, first: &str, horizon: u64, next_socket: &Rc<RefCell<Option<DuplexStream>>>) -> String {
+            let start = tokio::time::Instant::now();
+            let drop_at: Option<u64> = first.strip_prefix("drop@").map(|x| x.parse().unwrap());
+            let (client_end, broker_end) = tokio::io::duplex(1 << 20);
+            *next_socket.borrow_mut() = Some(client_end);
+            let mut bn: $netty = $mknet(broker_end);
+            let _ = bn.write($connack(None)).await;
+            let _ = bn.flush().await;
+            let (_client, mut el): ($client, $evloop) = $newclient($opts(ka_ms));
+            let mut pings1: Vec<u64> = vec![];
+            // ---- connection 1
+            let err1 = {
+                let client_fut = async { loop { if let Err(e) = el.poll().await { return (($err)(&e), ms(start)) } } };
+                let broker_fut = async {
+                    loop {
+                        tokio::select! {
+                            biased;
+                            p = bn.read() => match p { Ok(p) => { if $is_ping(&p) { pings1.push(ms(start)); } } Err(_) => std::future::pending::<()>().await },
+                            _ = tokio::time::sleep_until(start + Duration::from_millis(drop_at.unwrap_or(0))), if drop_at.is_some() => { return; }
+                        }
+                    }
+                };
+                tokio::pin!(client_fut);
+                tokio::select! {
+                    biased;
+                    r = &mut client_fut => r,
+                    _ = broker_fut => { drop(bn); client_fut.await }
+                }
+            };
+            // ---- connection 2: reconnect at once, every PINGREQ answered after ka/8
+            let (client_end, broker_end) = tokio::io::duplex(1 << 20);
+            *next_socket.borrow_mut() = Some(client_end);
+            let mut bn: $netty = $mknet(broker_end);
+            let _ = bn.write($connack(None)).await;
+            let _ = bn.flush().await;
+            let pings2: RefCell<Vec<u64>> = RefCell::new(vec![]);
+            let c2: RefCell<Option<u64>> = RefCell::new(None);
+            let client_fut = async {
+                loop {
+                    match el.poll().await {
+                        Ok(ev) => { if $is_connack(&ev) && c2.borrow().is_none() { *c2.borrow_mut() = Some(ms(start)); } }
+                        Err(e) => return (($err)(&e), ms(start)),
+                    }
+                }
+            };
+            let broker_fut = async {
+                let mut due: std::collections::VecDeque<u64> = Default::default();
+                loop {
+                    let reply_at = due.front().copied();
+                    tokio::select! {
+                        biased;
+                        p = bn.read() => match p { Ok(p) => { if $is_ping(&p) { let t = ms(start); pings2.borrow_mut().push(t); due.push_back(t + ka_ms / 8); } } Err(_) => std::future::pending::<()>().await },
+                        _ = tokio::time::sleep_until(start + Duration::from_millis(reply_at.unwrap_or(0))), if reply_at.is_some() => {
+                            due.pop_front();
+                            let _ = bn.write($pingresp).await;
+                            let _ = bn.flush().await;
+                        }
+                    }
+                }
+            };
+            let end = tokio::select! {
+                biased;
+                r = client_fut => format!("ERROR {}@{}", r.0, r.1),
+                _ = broker_fut => unreachable!(),
+                _ = tokio::time::sleep_until(start + Duration::from_millis(horizon)) => format!("HORIZON@{}", ms(start)),
+            };
+            let f = |v: &Vec<u64>| v.iter().map(|x| x.to_string()).collect::<Vec<_>>().join(" ");
+            let c2s = c2.borrow().map(|x| x.to_string()).unwrap_or("-".into());
+            format!("KAR PINGS1[{}] ERR1 {}@{} C2@{} PINGS2[{}] END {}", f(&pings1), err1.0, err1.1, c2s, f(&pings2.borrow()), end)
+        }
+    };
+}
+kar_scenario!(
+    kar4, Network, |s: DuplexStream| Network::new(s, 1 << 20, 1 << 20), AsyncClient, EventLoop,
+    |o: MqttOptions| AsyncClient::new(o, 1000), opts4,
+    |_k: Option<u16>| Packet::ConnAck(ConnAck::new(ConnectReturnCode::Success, false)),
+    |p: &Packet| matches!(p, Packet::PingReq), Packet::PingResp,
+    |e: &Event| matches!(e, Event::Incoming(Packet::ConnAck(_))), error_s
+);
+kar_scenario!(
+    kar5, rumqttc::verif::NetworkV5, |s: DuplexStream| rumqttc::verif::NetworkV5::new(s, Some(1 << 20)),
+    rumqttc::v5::AsyncClient, rumqttc::v5::EventLoop,
+    |o: rumqttc::v5::MqttOptions| rumqttc::v5::AsyncClient::new(o, 1000), opts5, connack5,
+    |p: &rumqttc::v5::mqttbytes::v5::Packet| matches!(p, rumqttc::v5::mqttbytes::v5::Packet::PingReq(_)),
+    rumqttc::v5::mqttbytes::v5::Packet::PingResp(rumqttc::v5::mqttbytes::v5::PingResp),
+    |e: &rumqttc::v5::Event| matches!(e, rumqttc::v5::Event::Incoming(rumqttc::v5::mqttbytes::v5::Packet::ConnAck(_))), err5
+);
+
 /// the connect step alone: the broker answers the CONNECT after `handshake` ms, or never
 async fn kaconn(ver: &str, timeout_s: u64, handshake: Option<u64>, next_socket: &Rc<RefCell<Option<DuplexStream>>>) -> String {
     let start = tokio::time::Instant::now();
@@ -492,6 +593,7 @@ async fn run() {
             None => Err(io::Error::new(io::ErrorKind::ConnectionRefused, "no broker")),
         })));
     }
+    let mut sched: Vec<(tokio::time::Instant, Vec<Packet>)> = vec![];
     for line in stdin.lock().lines() {
         let line = line.unwrap();
         let t: Vec<&str> = line.split_whitespace().collect();
@@ -499,13 +601,68 @@ async fn run() {
             continue;
         }
         let ans = match t[0] {
+            "NETAT" => {
+                let at = tokio::time::Instant::now() + Duration::from_millis(t[1].parse().unwrap());
+                let rest = line.splitn(3, ' ').nth(2).unwrap_or("");
+                let pk: Vec<Packet> = rest.split(';').filter_map(|part| {
+                    let pt: Vec<&str> = part.split_whitespace().collect();
+                    if pt.is_empty() { None } else { Some(broker_packet(&pt)) }
+                }).collect();
+                if broker.borrow().net.is_some() {
+                    sched.push((at, pk));
+                }
+                "OK".to_string()
+            }
+            "POLLT" => {
+                let (_, el) = lp.as_mut().unwrap();
+                let limit = tokio::time::Instant::now() + Duration::from_millis(t[1].parse().unwrap());
+                sched.sort_by_key(|x| x.0);
+                let todo: Vec<(tokio::time::Instant, Vec<Packet>)> = std::mem::take(&mut sched);
+                let head = {
+                    let mut b = broker.borrow_mut();
+                    let mut pending_writes = todo.into_iter();
+                    let left: RefCell<Vec<(tokio::time::Instant, Vec<Packet>)>> = RefCell::new(vec![]);
+                    let writer = async {
+                        // never completes: the broker's scheduled writes happen while poll() runs
+                        while let Some((at, pk)) = pending_writes.next() {
+                            left.borrow_mut().push((at, pk.clone()));
+                            tokio::time::sleep_until(at).await;
+                            left.borrow_mut().pop();
+                            if let Some(n) = b.net.as_mut() {
+                                for p in pk {
+                                    let _ = n.write(p).await;
+                                }
+                                let _ = n.flush().await;
+                            }
+                        }
+                        std::future::pending::<()>().await
+                    };
+                    let r = tokio::select! {
+                        biased;
+                        r = el.poll() => Some(r),
+                        _ = writer => unreachable!(),
+                        _ = tokio::time::sleep_until(limit) => None,
+                    };
+                    // writes not yet due stay scheduled
+                    sched.extend(left.into_inner());
+                    sched.extend(pending_writes);
+                    match r {
+                        None => "IDLE".to_string(),
+                        Some(Ok(e)) => format!("EVENT {}", event_s(&e)),
+                        Some(Err(e)) => format!("ERROR {}", error_s(&e)),
+                    }
+                };
+                let w = broker.borrow_mut().received();
+                format!("{} WIRE[{}]", head, w.join(" "))
+            }
             "LNEW" => {
                 let mut o = MqttOptions::new("verif", "localhost", 1883);
                 o.set_inflight(num(t[1]));
                 o.set_manual_acks(t[2] == "1");
                 o.set_clean_session(false);
                 o.set_keep_alive(Duration::from_secs(3600));
-                o.set_pending_throttle(Duration::ZERO);
+                o.set_pending_throttle(Duration::from_millis(if t.len() > 3 { t[3].parse().unwrap() } else { 0 }));
+                sched.clear();
                 lp = Some(AsyncClient::new(o, 1000));
                 broker.borrow_mut().net = None;
                 *next_socket.borrow_mut() = None;
@@ -566,6 +723,10 @@ async fn run() {
             "BURST" => {
                 let n: usize = t[2].parse().unwrap();
                 if t[1] == "4" { burst4(n, t[3], &next_socket).await } else { burst5(n, t[3], &next_socket).await }
+            }
+            "KAR" => {
+                let (ka, hz): (u64, u64) = (t[2].parse().unwrap(), t[4].parse().unwrap());
+                if t[1] == "4" { kar4(ka, t[3], hz, &next_socket).await } else { kar5(ka, t[3], hz, &next_socket).await }
             }
             "KACONN" => {
                 let h = if t[3] == "never" { None } else { Some(t[3].parse().unwrap()) };
